@@ -56,15 +56,30 @@ def build(spec, do):
     kind = spec["kind"]
     if kind == "at":
         return AtTimeTrigger(spec["time"], do, **kw)
+    # A trigger's specification is what it was GIVEN: the caller goes on using its own objects afterwards (the same TimeRange shifted by a day for the next
+    # registration, the same list of times cleared and refilled for the next strategy). After construction the caller's objects are therefore changed here.
+    far = timedelta(days=400)
     if kind == "ats":
-        return AtTimesTrigger(list(spec["times"]), do, **kw)
+        given = list(spec["times"])
+        t = AtTimesTrigger(given, do, **kw)
+        given.clear()
+        return t
     if kind == "range":
-        return TimeRangeTrigger(TimeRange(spec["start"], spec["end"]), do, **kw)
+        given = TimeRange(spec["start"], spec["end"])
+        t = TimeRangeTrigger(given, do, **kw)
+        given.start, given.end = given.start + far, given.end + far
+        return t
     if kind == "ranges":
-        return TimeRangesTrigger([TimeRange(s, e) for s, e in spec["ranges"]], do, **kw)
+        given = [TimeRange(s, e) for s, e in spec["ranges"]]
+        t = TimeRangesTrigger(given, do, **kw)
+        for g in given:
+            g.start, g.end = g.start + far, g.end + far
+        given.clear()
+        return t
     if kind == "period":
         return PeriodTrigger(spec["delta"], do, trigger_immediately=spec["immediate"], pending=spec["pending"], **kw)
     if kind == "periods":
+        # (PeriodsTrigger keeps the caller's list of periods as it is today: what happens when the caller changes that list afterwards is not judged)
         return PeriodsTrigger(list(spec["deltas"]), do, trigger_immediately=spec["immediate"], pending=spec["pending"], **kw)
     raise ValueError(kind)
 
@@ -174,7 +189,11 @@ def run_case(grid, specs):
         err = f"{type(e).__name__}: {e}"
     bars = [t[2] for t in st.trace if t[0] == "before_bar"]
     run_case.chained_at = dict(chained_at)
+    FINISHED.append(({"grid": list(grid), "specs": [spec_json(x) for x in specs]}, fired, [len(f) for f in fired]))
     return bars, fired, present, err
+
+
+FINISHED = []  # (case, firings per trigger, their counts when the run ended) of the runs this worker process has finished
 
 
 def judge(part: Part, grid, specs):
@@ -358,6 +377,14 @@ def work(args):
     for grid, specs in items:
         part.sample({"grid": list(grid), "specs": [spec_json(s) for s in specs]}, every=211)
         judge(part, grid, specs)
+        # a trigger belongs to the strategy (and run) it was registered with: a LATER run with its own strategy must not fire an earlier strategy's triggers again
+        for case, fired, counts in FINISHED[:-1]:
+            part.count("finished_runs_rechecked")
+            if [len(f) for f in fired] != counts:
+                part.violation("C18|finished-run-fired-again", "triggers of an already finished run fired during a later run of another strategy (their action was called again)",
+                               case, {"later_run": {"grid": list(grid), "specs": [spec_json(x) for x in specs]}, "firings_at_end_of_own_run": counts,
+                                      "firings_now": [len(f) for f in fired]})
+        del FINISHED[:-3]
     return part.result()
 
 
@@ -374,6 +401,11 @@ def main(run: Run):
             items.append((gd, [{"kind": "period", "delta": 12 * h, "pending": pending, "immediate": im, "kwargs": {"d": 1}}]))
         items.append((gd, [{"kind": "periods", "deltas": [12 * h, 18 * h], "pending": pending, "immediate": False, "kwargs": {"d": 2}}]))
     items.append((gd, [{"kind": "period", "delta": 24 * h, "pending": timedelta(0), "immediate": False}]))
+    # periods that do not divide a day (18 h) or exceed it (36 h, 2 days), followed for more than a day after their first due time
+    for delta in (18 * h, 36 * h, 48 * h, 30 * h):
+        for pending in (timedelta(0), 6 * h):
+            items.append((gd, [{"kind": "period", "delta": delta, "pending": pending, "immediate": False, "kwargs": {"d": 3}}]))
+    items.append((gd, [{"kind": "periods", "deltas": [18 * h, 30 * h], "pending": timedelta(0), "immediate": True, "kwargs": {"d": 4}}]))
     items = run.rotate(items)
     for p in pmap(work, [(run.seed, c) for c in chunks(items, 64)]):
         run.merge(p)
